@@ -1,6 +1,7 @@
 package main
 
 import (
+	"go/token"
 	"sort"
 
 	"golang.org/x/tools/go/ssa"
@@ -19,6 +20,7 @@ import (
 type regionSite struct {
 	owner *ssa.Function   // function containing the instruction
 	chain []ssa.Instruction // call instructions from the root down to owner (empty for the root)
+	viaClosure *ssa.Function // owner is a closure defined in this function of the region (shares its chain)
 }
 
 type Region struct {
@@ -61,6 +63,17 @@ func (p *Program) RegionOf(root *ssa.Function, depth int) *Region {
 			visit(g, nc, d-1, onPath)
 			delete(onPath, g)
 		}
+		// closures defined here belong to the region; their free variables already resolve to
+		// terms of the enclosing function, so they share its chain
+		for _, a := range fn.AnonFuncs {
+			if _, seen := r.sites[a]; !seen && !onPath[a] {
+				r.funcs = append(r.funcs, a)
+				r.sites[a] = append(r.sites[a], regionSite{owner: a, chain: chain, viaClosure: fn})
+				onPath[a] = true
+				visit(a, chain, d, onPath)
+				delete(onPath, a)
+			}
+		}
 		eachInstr(fn, func(in ssa.Instruction) {
 			if cc := callCommon(in); cc != nil {
 				if _, isGo := in.(*ssa.Go); isGo {
@@ -100,6 +113,31 @@ func (r *Region) Calls(pred func(*ssa.CallCommon) bool) []regionInstr {
 	return out
 }
 
+// CallsAllSites: like Calls, with an instruction of a helper reported once per call site of the helper.
+func (r *Region) CallsAllSites(pred func(*ssa.CallCommon) bool) []regionInstr {
+	var out []regionInstr
+	for _, fn := range r.funcs {
+		seen := map[ssa.Instruction]bool{}
+		for _, s := range r.sites[fn] {
+			var key ssa.Instruction
+			if len(s.chain) > 0 {
+				key = s.chain[0]
+			}
+			if seen[key] && key != nil {
+				continue
+			}
+			seen[key] = true
+			s := s
+			eachInstr(fn, func(in ssa.Instruction) {
+				if cc := callCommon(in); cc != nil && pred(cc) {
+					out = append(out, regionInstr{s, in})
+				}
+			})
+		}
+	}
+	return out
+}
+
 type regionInstr struct {
 	site regionSite
 	in   ssa.Instruction
@@ -113,7 +151,6 @@ func (r *Region) Term(s regionSite, v ssa.Value) *Term {
 
 func (r *Region) lift(s regionSite, t *Term) *Term {
 	// substitute parameters of each function on the chain, innermost first
-	owner := s.owner
 	for i := len(s.chain) - 1; i >= 0; i-- {
 		call := s.chain[i]
 		cc := callCommon(call)
@@ -121,11 +158,15 @@ func (r *Region) lift(s regionSite, t *Term) *Term {
 		for _, a := range cc.Args {
 			args = append(args, r.p.TermOf(a))
 		}
-		if cc.StaticCallee() == nil && !cc.IsInvoke() {
-			// closure call: parameters are the call's arguments
+		callee := cc.StaticCallee()
+		if callee == nil && !cc.IsInvoke() {
+			if cl := r.p.TermOf(cc.Value).Resolve("closure"); cl != nil {
+				callee = cl.Fn
+			}
 		}
-		t = t.Subst(owner, args)
-		owner = call.Parent()
+		if callee != nil {
+			t = t.Subst(callee, args)
+		}
 	}
 	return t
 }
@@ -179,13 +220,57 @@ func (r *Region) Before(a, b regionInstr) bool {
 	return instrBefore(a.site.chain[len(b.site.chain)], b.in)
 }
 
+// Reaches: b can execute after a (decided on the call sites in the root; locally inside one helper).
+func (r *Region) Reaches(a, b regionInstr) bool {
+	aa, ab := r.Anchor(a), r.Anchor(b)
+	if aa != ab {
+		return instrReaches(aa, ab)
+	}
+	if a.site.owner == b.site.owner {
+		return instrReaches(a.in, b.in)
+	}
+	return true
+}
+
+// InCycle: the instruction may execute more than once per activation of the root (it, or a call
+// on its chain, sits in a loop).
+func (r *Region) InCycle(ri regionInstr) bool {
+	if inCycle(ri.in.Block()) {
+		return true
+	}
+	for _, c := range ri.site.chain {
+		if inCycle(c.Block()) {
+			return true
+		}
+	}
+	return false
+}
+
 // MustHit: on every normal (non-error) path through fn an instruction satisfying hit is executed,
 // directly or inside a helper of the region (summaries computed recursively).
 func (r *Region) MustHit(fn *ssa.Function, hit func(ssa.Instruction) bool) bool {
-	return r.mustHit(fn, hit, map[*ssa.Function]int{}, 0)
+	return r.mustHit(fn, hit, mustOpts{skipErrEdges: true}, map[*ssa.Function]int{}, 0)
 }
 
-func (r *Region) mustHit(fn *ssa.Function, hit func(ssa.Instruction) bool, memo map[*ssa.Function]int, depth int) bool {
+// SiteOf: the (first) way fn is entered from the root.
+func (r *Region) SiteOf(fn *ssa.Function) regionSite {
+	if ss := r.sites[fn]; len(ss) > 0 {
+		return ss[0]
+	}
+	return regionSite{owner: fn}
+}
+
+// TermIn describes a value used by instruction `in` of the region in the root's vocabulary.
+func (r *Region) TermIn(in ssa.Instruction, v ssa.Value) *Term {
+	return r.Term(r.SiteOf(in.Parent()), v)
+}
+
+// LiftIn re-expresses a term built inside fn in the root's vocabulary.
+func (r *Region) LiftIn(fn *ssa.Function, t *Term) *Term {
+	return r.lift(r.SiteOf(fn), t)
+}
+
+func (r *Region) mustHit(fn *ssa.Function, hit func(ssa.Instruction) bool, o mustOpts, memo map[*ssa.Function]int, depth int) bool {
 	if v, ok := memo[fn]; ok {
 		return v == 1
 	}
@@ -193,8 +278,8 @@ func (r *Region) mustHit(fn *ssa.Function, hit func(ssa.Instruction) bool, memo 
 	if depth > 4 || len(fn.Blocks) == 0 {
 		return false
 	}
-	h := r.deepHit(hit, memo, depth)
-	if r.p.EscapesWithout(fn, h, mustOpts{skipErrEdges: true}) == nil {
+	h := r.deepHit(hit, o, memo, depth)
+	if r.p.EscapesWithout(fn, h, mustOpts{skipErrEdges: o.skipErrEdges, skipEdge: o.skipEdge}) == nil {
 		memo[fn] = 1
 		return true
 	}
@@ -202,7 +287,7 @@ func (r *Region) mustHit(fn *ssa.Function, hit func(ssa.Instruction) bool, memo 
 }
 
 // deepHit lifts an instruction predicate to "this instruction satisfies it, or is a call to a helper that must".
-func (r *Region) deepHit(hit func(ssa.Instruction) bool, memo map[*ssa.Function]int, depth int) func(ssa.Instruction) bool {
+func (r *Region) deepHit(hit func(ssa.Instruction) bool, o mustOpts, memo map[*ssa.Function]int, depth int) func(ssa.Instruction) bool {
 	return func(in ssa.Instruction) bool {
 		if hit(in) {
 			return true
@@ -226,13 +311,84 @@ func (r *Region) deepHit(hit func(ssa.Instruction) bool, memo map[*ssa.Function]
 		if g == nil || !r.p.isHelperOf(r.root, g) {
 			return false
 		}
-		return r.mustHit(g, hit, memo, depth+1)
+		return r.mustHit(g, hit, o, memo, depth+1)
 	}
 }
 
 // EscapesWithoutDeep: like EscapesWithout on the root, with helpers of the region counted through their summaries.
 func (r *Region) EscapesWithoutDeep(hit func(ssa.Instruction) bool, o mustOpts) ssa.Instruction {
-	return r.p.EscapesWithout(r.root, r.deepHit(hit, map[*ssa.Function]int{}, 0), o)
+	return r.p.EscapesWithout(r.root, r.deepHit(hit, o, map[*ssa.Function]int{}, 0), o)
+}
+
+// EscapesAfter: starting right after ri, can the root return (on a path allowed by o) without an
+// instruction satisfying hit? Decided level by level: the rest of the helper containing ri, then
+// the rest of its caller after the call, and so on up to the root. Returns the offending exit or nil.
+func (r *Region) EscapesAfter(ri regionInstr, hit func(ssa.Instruction) bool, o mustOpts) ssa.Instruction {
+	h := r.deepHit(hit, o, map[*ssa.Function]int{}, 0)
+	cur := ri.in
+	for i := len(ri.site.chain); ; i-- {
+		oo := o
+		oo.start = cur
+		esc := r.p.EscapesWithout(cur.Parent(), h, oo)
+		if esc == nil {
+			return nil
+		}
+		if i == 0 {
+			return esc
+		}
+		cur = ri.site.chain[i-1]
+	}
+}
+
+// retCase: one way the root produces result #idx — the value (root vocabulary) and the branch
+// outcomes under which it is returned. A result that is the result of a helper call is split into
+// the helper's own returns.
+type retCase struct {
+	T     *Term
+	Conds []Cond
+	Pos   token.Pos
+}
+
+func (r *Region) ReturnCases(idx int) []retCase {
+	return r.returnCases(r.SiteOf(r.root), idx, nil, 0)
+}
+
+func (r *Region) returnCases(site regionSite, idx int, outer []Cond, depth int) []retCase {
+	var out []retCase
+	fn := site.owner
+	for _, b := range fn.Blocks {
+		if len(b.Instrs) == 0 || b == fn.Recover {
+			continue
+		}
+		ret, ok := b.Instrs[len(b.Instrs)-1].(*ssa.Return)
+		if !ok || idx >= len(ret.Results) {
+			continue
+		}
+		v := RetVal(ret, idx)
+		conds := append([]Cond{}, outer...)
+		for _, c := range r.p.CondsAt(b) {
+			conds = append(conds, Cond{Atom: r.lift(site, c.Atom), Pol: c.Pol, V: c.V, Branch: c.Branch})
+		}
+		sub := 0
+		var call *ssa.Call
+		switch x := v.(type) {
+		case *ssa.Call:
+			call = x
+		case *ssa.Extract:
+			if c2, isC := x.Tuple.(*ssa.Call); isC {
+				call, sub = c2, x.Index
+			}
+		}
+		if call != nil && depth < 3 {
+			if g := call.Call.StaticCallee(); g != nil && r.p.isHelperOf(r.root, g) && len(r.sites[g]) > 0 {
+				gs := regionSite{owner: g, chain: append(append([]ssa.Instruction{}, site.chain...), call)}
+				out = append(out, r.returnCases(gs, sub, conds, depth+1)...)
+				continue
+			}
+		}
+		out = append(out, retCase{T: r.Term(site, v), Conds: conds, Pos: ret.Pos()})
+	}
+	return out
 }
 
 // Funcs: functions of the region, root first, helpers sorted by name.
@@ -249,6 +405,11 @@ func (r *Region) Funcs() []*ssa.Function {
 // expanded when t is an extract of the call.
 func (p *Program) X(t *Term) *Term {
 	return p.xDepth(t, 4, map[*ssa.Function]bool{})
+}
+
+// X1 expands one level only (the caller decides about the calls the helper returns).
+func (p *Program) X1(t *Term) *Term {
+	return p.xDepth(t, 1, map[*ssa.Function]bool{})
 }
 
 func (p *Program) xDepth(t *Term, depth int, busy map[*ssa.Function]bool) *Term {
@@ -280,7 +441,7 @@ func (p *Program) xDepth(t *Term, depth int, busy map[*ssa.Function]bool) *Term 
 	var alts []*Term
 	for _, rt := range p.ReturnTerms(g) {
 		if idx < len(rt) {
-			alts = append(alts, p.xDepth(rt[idx].Subst(g, args), depth-1, busy))
+			alts = append(alts, p.xDepth(p.materialise(rt[idx], g, 0).Subst(g, args), depth-1, busy))
 		}
 	}
 	if len(alts) == 0 {
@@ -292,6 +453,12 @@ func (p *Program) xDepth(t *Term, depth int, busy map[*ssa.Function]bool) *Term 
 // XAll expands helper calls everywhere inside t (bottom-up), keeping calls to functions in `keep`.
 func (p *Program) XAll(t *Term, keep func(*ssa.Function) bool) *Term {
 	return p.xAll(t, keep, 4, map[*ssa.Function]bool{})
+}
+
+// XLocal expands the calls to helpers living in fn's own package (calls into other packages are
+// what rules usually anchor on and stay opaque).
+func (p *Program) XLocal(t *Term, fn *ssa.Function) *Term {
+	return p.XAll(t, func(g *ssa.Function) bool { return fn == nil || g.Pkg != fn.Pkg })
 }
 
 func (p *Program) xAll(t *Term, keep func(*ssa.Function) bool, depth int, busy map[*ssa.Function]bool) *Term {
@@ -326,4 +493,86 @@ func (p *Program) xAll(t *Term, keep func(*ssa.Function) bool, depth int, busy m
 		}
 	}
 	return nt
+}
+
+// materialise: struct allocations of helper g inside t get their field contents attached as
+// `fieldval` children, so that the substitution of g's parameters reaches them (a struct literal
+// built inside a helper from the helper's parameters). Read them back with AllocFields.
+func (p *Program) materialise(t *Term, g *ssa.Function, depth int) *Term {
+	if t == nil || depth > 6 {
+		return t
+	}
+	if t.Op == "alloc" && len(t.Args) == 0 {
+		if al, ok := t.V.(*ssa.Alloc); ok && al.Parent() == g {
+			_, bf := p.storesTo(al)
+			if len(bf) > 0 {
+				var names []string
+				for f := range bf {
+					names = append(names, f)
+				}
+				sort.Strings(names)
+				c := *t
+				c.str = ""
+				for _, f := range names {
+					for _, v := range bf[f] {
+						c.Args = append(c.Args, mk("fieldval", f, v, p.materialise(p.TermOf(v), g, depth+1)))
+					}
+				}
+				return &c
+			}
+		}
+		return t
+	}
+	if len(t.Args) == 0 {
+		return t
+	}
+	na := make([]*Term, len(t.Args))
+	changed := false
+	for i, a := range t.Args {
+		na[i] = p.materialise(a, g, depth+1)
+		if na[i] != a {
+			changed = true
+		}
+	}
+	if !changed {
+		return t
+	}
+	c := *t
+	c.Args = na
+	c.str = ""
+	return &c
+}
+
+// AllocFields: the values stored into the fields of the struct allocation t, as terms in the
+// vocabulary t was built in (lifted when t comes out of a helper expansion).
+func (p *Program) AllocFields(t *Term) map[string][]*Term {
+	out := map[string][]*Term{}
+	if t == nil {
+		return out
+	}
+	if t.Op == "alloc" && len(t.Args) > 0 && t.Args[0].Op == "fieldval" {
+		for _, a := range t.Args {
+			if a.Op == "fieldval" {
+				out[a.Name] = append(out[a.Name], a.Args[0])
+			}
+		}
+		return out
+	}
+	if t.Op == "struct" {
+		for _, a := range t.Args {
+			if a.Op == "fieldval" && len(a.Args) == 1 {
+				out[a.Name] = append(out[a.Name], a.Args[0])
+			}
+		}
+		return out
+	}
+	if al, ok := t.V.(*ssa.Alloc); ok {
+		_, bf := p.storesTo(al)
+		for f, vs := range bf {
+			for _, v := range vs {
+				out[f] = append(out[f], p.TermOf(v))
+			}
+		}
+	}
+	return out
 }
